@@ -209,6 +209,24 @@ func refEvents(c *Ctx, f *ssa.Function) []refEvent {
 			evs = append(evs, refEvent{instr: i, tok: recv, kind: kind})
 			return
 		}
+		// a private helper that releases one of its parameters on every path (`f.abandonIterator(iter)`: iter.Close();
+		// f.DecRef()) is a release of the corresponding arguments
+		if sf != nil && sf.Pkg == c.Moss && sf.Blocks != nil && !isExportedRoot(sf) && len(sf.Blocks) <= 6 {
+			emitted := false
+			for k, a := range cc.Args {
+				if k < len(sf.Params) && refCountedType(a.Type()) && releasesParamAlways(sf, k) {
+					kind := "rel"
+					if isDefer {
+						kind = "defer-rel"
+					}
+					evs = append(evs, refEvent{instr: i, tok: a, kind: kind})
+					emitted = true
+				}
+			}
+			if emitted {
+				return
+			}
+		}
 		if isDefer {
 			return
 		}
@@ -627,7 +645,14 @@ func balanceWalkSeeded(c *Ctx, f *ssa.Function, g []refEvent, seed ssa.Value) (s
 				continue
 			}
 			if ci, isCI := ins.(ssa.CallInstruction); isCI && s.acquired {
-				if recv, isRel := isReleaseCall(ci); isRel && (&tokenSet{s.t, key}).has(recv) {
+				recv, isRel := isReleaseCall(ci)
+				if !isRel {
+					// a helper summarised as releasing this argument on all its paths (refEvents)
+					if e, isEv := evAt[ins]; isEv && (e.kind == "rel" || e.kind == "defer-rel") {
+						recv, isRel = e.tok, true
+					}
+				}
+				if isRel && (&tokenSet{s.t, key}).has(recv) {
 					if _, isDefer := ins.(*ssa.Defer); isDefer {
 						s.deferred++
 					} else if _, isGo := ins.(*ssa.Go); !isGo {
@@ -1017,4 +1042,62 @@ func after2(i ssa.Instruction) point {
 		return after(i)
 	}
 	return after(i)
+}
+
+var relParamMemo = map[*ssa.Function]map[int]bool{}
+
+// releasesParamAlways: every path of the (small, private) helper h releases its k-th parameter.
+func releasesParamAlways(h *ssa.Function, k int) bool {
+	if m, ok := relParamMemo[h]; ok {
+		if v, ok2 := m[k]; ok2 {
+			return v
+		}
+	} else {
+		relParamMemo[h] = map[int]bool{}
+	}
+	relParamMemo[h][k] = false
+	p := h.Params[k]
+	var rels []ssa.Instruction
+	eachInstr(h, func(i ssa.Instruction) {
+		call, ok := i.(*ssa.Call)
+		if !ok {
+			return
+		}
+		cc := call.Common()
+		name := ""
+		var recv ssa.Value
+		if cc.IsInvoke() {
+			name, recv = cc.Method.Name(), cc.Value
+		} else if sf := cc.StaticCallee(); sf != nil && sf.Signature.Recv() != nil && len(cc.Args) > 0 {
+			name, recv = sf.Name(), cc.Args[0]
+		}
+		if !releaseMethods[name] || recv == nil {
+			return
+		}
+		for _, og := range origins(recv) {
+			if og == ssa.Value(p) {
+				rels = append(rels, i)
+			}
+		}
+	})
+	if len(rels) == 0 {
+		return false
+	}
+	all := true
+	eachInstr(h, func(i ssa.Instruction) {
+		if r, isR := i.(*ssa.Return); isR && all {
+			if !mustPrecede(h, r, func(j ssa.Instruction) bool {
+				for _, x := range rels {
+					if j == x {
+						return true
+					}
+				}
+				return false
+			}, nil) {
+				all = false
+			}
+		}
+	})
+	relParamMemo[h][k] = all
+	return all
 }
